@@ -23,7 +23,13 @@ import (
 	"time"
 )
 
-const VerifRoot = "/verif"
+// VerifRoot is where evidence, replays and known_findings.json live (VERIF_ROOT overrides it for
+// scratch copies of the framework used during development).
+var VerifRoot = envOr("VERIF_ROOT", "/verif")
+
+// OutRoot receives evidence/ and replays/ (VERIF_OUT redirects them, e.g. for mutant self-tests,
+// so that a deliberately broken run never overwrites real evidence).
+var OutRoot = envOr("VERIF_OUT", VerifRoot)
 
 // Violation is one failing execution. Key identifies the failing call site / input class and is
 // what known_findings.json is matched against; Replay is the minimal artefact to reproduce it.
@@ -519,7 +525,7 @@ func finish(spec CheckSpec, c *Ctx, wall time.Duration) int {
 
 	rc := 0
 	nviol, nknown := 0, 0
-	os.MkdirAll(filepath.Join(VerifRoot, "replays", spec.ID), 0o755)
+	os.MkdirAll(filepath.Join(OutRoot, "replays", spec.ID), 0o755)
 	sort.Slice(c.viols, func(i, j int) bool { return c.viols[i].Key < c.viols[j].Key })
 	seenKnown := map[string]bool{}
 	for _, v := range c.viols {
@@ -533,7 +539,7 @@ func finish(spec CheckSpec, c *Ctx, wall time.Duration) int {
 		}
 		raw, _ := json.MarshalIndent(v, "", " ")
 		h := sha256.Sum256([]byte(v.Key))
-		path := filepath.Join(VerifRoot, "replays", spec.ID, hex.EncodeToString(h[:6])+".json")
+		path := filepath.Join(OutRoot, "replays", spec.ID, hex.EncodeToString(h[:6])+".json")
 		os.WriteFile(path, raw, 0o644)
 		fmt.Printf("VIOLATION property=%s replay=%s\n", spec.ID, path)
 		fmt.Printf("  key=%s\n  %s\n", v.Key, strings.ReplaceAll(v.Desc, "\n", "\n  "))
@@ -582,10 +588,10 @@ func finish(spec CheckSpec, c *Ctx, wall time.Duration) int {
 		ev["assumptions"] = []string{}
 	}
 	raw, _ := json.MarshalIndent(ev, "", " ")
-	os.MkdirAll(filepath.Join(VerifRoot, "evidence"), 0o755)
-	tmp := filepath.Join(VerifRoot, "evidence", spec.ID+".json.tmp")
+	os.MkdirAll(filepath.Join(OutRoot, "evidence"), 0o755)
+	tmp := filepath.Join(OutRoot, "evidence", spec.ID+".json.tmp")
 	os.WriteFile(tmp, raw, 0o644)
-	os.Rename(tmp, filepath.Join(VerifRoot, "evidence", spec.ID+".json"))
+	os.Rename(tmp, filepath.Join(OutRoot, "evidence", spec.ID+".json"))
 	fmt.Printf("%s tier=%s states=%d transitions=%d traces=%d outcomes=%d exhaustive=%v violations=%d known=%d wall=%.1fs\n",
 		spec.ID, c.Tier, tot.States, tot.Transitions, tot.Traces, len(outc), tot.Exhaustive, nviol, nknown, wall.Seconds())
 	return rc
